@@ -11,14 +11,49 @@ CONSTANTS Seed,        \* run seed (from VERIF_SEED)
           StmtDepth,   \* nesting depth of compound statements
           NMutants     \* single-token mutations per tree (rejection cases)
 
+(* ---- statement sequences: what the parser keeps between two statements of one block ------------------------ *)
+(* Kind = "stmtseq": every ordered pair of statement templates - every compound statement with each of its optional *)
+(* clauses present and absent (if / else / elif / elif+else, while and for with and without else, the four try      *)
+(* shapes, with and with-as) and three simple statements - as consecutive statements of the module (ctx 0) and as   *)
+(* non-first statements of one block (ctx 1), in NSpell seeded spellings each (one-line or indented suites, blank    *)
+(* lines, comments, semicolons).  A generated parser carries its semantic values in a stack whose slots are reused: *)
+(* what one statement leaves behind must not become part of the next (found missing by an independently seeded      *)
+(* change: the elif chain of an earlier statement turning up as the else part of a later one-line if).              *)
+NTemplates == 17
+LdN(n) == Nm(n, "Load")
+XS(n) == ExprS(LdN(n))
+Tmpl(i, n) ==     \* n = <<n1, n2, n3>>: the names this statement uses
+  CASE i = 1 -> IfS(LdN(n[1]), <<XS(n[2])>>, <<>>)
+    [] i = 2 -> IfS(LdN(n[1]), <<XS(n[2])>>, <<XS(n[3])>>)
+    [] i = 3 -> IfS(LdN(n[1]), <<XS(n[2])>>, <<IfS(LdN(n[3]), <<XS(n[2])>>, <<>>)>>)
+    [] i = 4 -> IfS(LdN(n[1]), <<XS(n[2])>>, <<IfS(LdN(n[3]), <<XS(n[2])>>, <<XS(n[1])>>)>>)
+    [] i = 5 -> WhileS(LdN(n[1]), <<XS(n[2])>>, <<>>)
+    [] i = 6 -> WhileS(LdN(n[1]), <<XS(n[2])>>, <<XS(n[3])>>)
+    [] i = 7 -> ForS(Nm(n[1], "Store"), LdN(n[2]), <<XS(n[3])>>, <<>>)
+    [] i = 8 -> ForS(Nm(n[1], "Store"), LdN(n[2]), <<XS(n[3])>>, <<XS(n[1])>>)
+    [] i = 9 -> TryS(<<XS(n[1])>>, <<HandlerN(LdN(n[2]), "", <<XS(n[3])>>)>>, <<>>, <<>>)
+    [] i = 10 -> TryS(<<XS(n[1])>>, <<HandlerN(NoneN, "", <<XS(n[2])>>)>>, <<XS(n[3])>>, <<>>)
+    [] i = 11 -> TryS(<<XS(n[1])>>, <<>>, <<>>, <<XS(n[2])>>)
+    [] i = 12 -> TryS(<<XS(n[1])>>, <<HandlerN(LdN(n[2]), "e", <<XS(n[3])>>)>>, <<>>, <<XS(n[1])>>)
+    [] i = 13 -> WithS(<<WithItemN(LdN(n[1]), NoneN)>>, <<XS(n[2])>>)
+    [] i = 14 -> WithS(<<WithItemN(LdN(n[1]), Nm(n[2], "Store"))>>, <<XS(n[3])>>)
+    [] i = 15 -> XS(n[1])
+    [] i = 16 -> PassS
+    [] i = 17 -> AssignS(<<Nm(n[1], "Store")>>, LdN(n[2]))
+SeqTree(a, b, ctx) ==
+  LET two == <<Tmpl(a, <<"a", "b", "c">>), Tmpl(b, <<"x", "y", "a">>)>> IN
+  ModuleM(IF ctx = 0 THEN two ELSE <<WhileS(LdN("b"), <<PassS>> \o two, <<>>)>>)
+
 (* slots of all forms / of the level representatives, as <<form, slot>> *)
 Slots == { <<f, k>> : f \in 1..NForms, k \in 1..3 } \cap { p \in (1..NForms) \X (1..3) : p[2] <= FormArity(p[1]) }
 LevelSlots == { p \in Slots : \E i \in 1..Len(LevelForms) : LevelForms[i] = p[1] }
 Universe ==
   IF Kind = "random" THEN 1..NCases
+  ELSE IF Kind = "stmtseq" THEN { <<a, b, ctx>> : a \in 1..NTemplates, b \in 1..NTemplates, ctx \in 0..1 }
   ELSE IF Kind = "pairs" THEN { <<p[1], p[2], g>> : p \in Slots, g \in 1..NForms }
   ELSE { <<p[1], p[2], q[1], q[2], LevelForms[e]>> : p \in LevelSlots, q \in LevelSlots, e \in 1..Len(LevelForms) }
 CaseNo(u) == IF Kind = "random" THEN u
+             ELSE IF Kind = "stmtseq" THEN (u[1] * 20 + u[2]) * 2 + u[3]
              ELSE IF Kind = "pairs" THEN (u[1] * 3 + u[2]) * 40 + u[3]
              ELSE (((u[1] * 3 + u[2]) * 40 + u[3]) * 3 + u[4]) * 40 + u[5]
 CaseTree(u) ==
@@ -26,6 +61,7 @@ CaseTree(u) ==
        LET h == H0(Seed, u) IN
        IF u % 4 = 0 THEN ExpressionM(GenE(ExprDepth, Fork(h, 1)))
        ELSE ModuleM(GenBody(ExprDepth - (u % 2), StmtDepth, Fork(h, 1)))
+  ELSE IF Kind = "stmtseq" THEN SeqTree(u[1], u[2], u[3])
   ELSE IF Kind = "pairs" THEN ExpressionM(PairTree(u[1], u[2], u[3]))
   ELSE ExpressionM(TripleTree(u[1], u[2], u[3], u[4], u[5]))
 
